@@ -685,13 +685,11 @@ namespace avel {
             return lhs;
         }
 
-        /*
         [[nodiscard]]
         AVEL_FINL friend Vector operator%(Vector lhs, Vector rhs) {
             lhs %= rhs;
             return lhs;
         }
-        */
 
         //=================================================
         // Increment/Decrement operators
@@ -1354,6 +1352,17 @@ namespace avel {
         #if defined(AVEL_NEON)
         return vec4x32f{vminnmq_f32(decay(a), decay(b))};
         #endif
+    }
+
+    [[nodiscard]]
+    AVEL_FINL vec4x32f fmod(vec4x32f a, vec4x32f b) {
+        // No vectorized remainder yet: each lane is evaluated with the scalar overload
+        auto x = to_array(a);
+        auto y = to_array(b);
+        for (std::uint32_t i = 0; i < vec4x32f::width; ++i) {
+            x[i] = avel::fmod(x[i], y[i]);
+        }
+        return vec4x32f{x};
     }
 
     [[nodiscard]]
